@@ -183,7 +183,9 @@ def dom_stream(ctx, case, x, obs):
     """DOM level of every <value> (phase 8): the model's `ItextOut.outDoms` (C06's mixed channel under the tag `value`
     with the reference table of the survey, `form` attribute added) against the children and attributes of the
     implementation's <value> elements — text chunks verbatim interleaved with one <output value=…/> per ${reference}."""
-    md = ctx.driver.call("itext.doms", survey=x)
+    # phase 8b: `outDomsR` = `outDoms` wherever that was stated (Lean: `C07OutputRep.domEntryR_stated`), plus the values
+    # of elements at or below a repeat, substituted with C03's `Refs.refFor` from the owning element
+    md = ctx.driver.call("itext.doms.rep", survey=x)
     if md["outcome"] != "ok":
         ctx.mismatch("itext.doms outcome differs from itext.model", case, "ok", md["outcome"])
         return
@@ -220,6 +222,11 @@ def dom_stream(ctx, case, x, obs):
                 ctx.count("dom:compared")
                 if n_out:
                     ctx.count("dom:compared-with-output")
+                    if not txm["stated"]:
+                        ctx.count("dom:compared-with-output:repeat-context")
+                        if any(k[0] == "e" and any(a[0] == "value" and a[1].strip().startswith("..") for a in k[2])
+                               for k in d["kids"]):
+                            ctx.count("dom:compared-with-output:relative-path")
                     ctx.count("dom:outputs:" + ("1" if n_out == 1 else "2" if n_out == 2 else ">2"))
 
 
